@@ -165,8 +165,8 @@ def cache_part(ck, tier, rng, sources):
     recs, owner = [], []
     nfail = 0
     for (name, files, main), a in zip(inputs, answers):
-        if not a.get("runs"):
-            continue          # crashes and time-outs are C03's subject
+        if not a.get("runs") or a["runs"][0].get("panic"):
+            continue          # crashes and time-outs are C03's subject (a panic unwinds through the deferred `done` events)
         ev = a["runs"][0].get("inst") or []
         if not ev:
             continue
